@@ -271,6 +271,24 @@ def flatten(records):
     return out
 
 
+def as_behaviours(records):
+    """one record per SESSION for Trace_DatasetSeq: the logged events in order (operation, arguments, outcome, rankings
+    observed after it); nothing else of the observation is needed there"""
+    out = []
+    for r in records:
+        evs = []
+        for s in r["steps"]:
+            if s.get("alive") != 1 and s["op"] != "construct":
+                break
+            evs.append({"op": s["op"], "pre": s["pre"], "out": s["out"], "post": [x["rk"] for x in s["obs"]["rks"]],
+                        "S": s.get("S", []), "p": s.get("p", 0), "q": s.get("q", 1)})
+            if s.get("alive") != 1:
+                break
+        if evs and evs[0]["op"] == "construct":
+            out.append({"id": r["id"], "events": evs})
+    return out
+
+
 # ------------------------------------------------------------------------------- rankings from other sources
 def run_ranking(case):
     """case: {"src": "ctor"|"from_string"|"generated"|"consensus", ...}"""
